@@ -25,6 +25,8 @@ func init() {
 }
 
 func runC02(c *core.Ctx) {
+	c.Rule("CTEFRESH", "every reference to a common table expression gets fresh unique column names")
+	checkCTEFreshNames(c, "CTEFRESH")
 	c.Rule("MAPORDER", "no planner result depends on Go's map iteration order")
 	checkMapOrder(c, "MAPORDER", []string{"logical", "physical", "optimizer", "parser"})
 	c.Rule("PARSECOV", "no clause the grammar accepts is silently ignored by the parser")
